@@ -4,7 +4,8 @@
    that the real library + the repository's glue act within the guards of that abstract node is checked on the traces of
    real 4- and 7-validator networks (Harness/C19.v).  Liveness: only the round-progress lemmas below.
    Statements only; every proof is [exact lemma]. *)
-From NG Require Import Common.Tactics Consensus.Dbft Consensus.DbftProofs.
+From NG Require Import Common.Tactics Codec.Multisig Consensus.Dbft Consensus.DbftProofs Consensus.Witness Consensus.WitnessProofs.
+Close Scope N_scope.
 
 (* agreement: no two honest validators accept different blocks at a height — for every number of validators n and bound f
    with n >= 3f+1 and at most f faulty validators (which may send anything under their own index), every trace of proposals,
@@ -81,6 +82,30 @@ Theorem C19_round0_completes_4_7_10 :
      | None => false end) (seq 0 (fst nf))) [(4, 1); (7, 2); (10, 3)]%nat = true.
 Proof. exact round0_completes. Qed.
 Print Assumptions C19_round0_completes_4_7_10.
+
+
+(* ---------- the block witness built by the glue (added after the first independent mutation round) ---------- *)
+
+(* dBFT keeps the Commit payloads of older views in its table across a view change.  The witness assembled as "the first M
+   signatures, in validator order, of the commits OF THE CURRENT VIEW" consists of M signatures over the accepted block's
+   header and passes the multi-signature check (in-order matching of signatures to validator keys, Codec/Multisig —
+   C18's seq_match_iff_matching), whatever older commits the table holds *)
+Theorem C19_witness_from_current_view : forall (cur h : N) (t : table) (m : nat),
+  table_ok cur h t -> (m <= cur_count cur t)%nat ->
+  let w := assemble true m cur t in
+  length w = m /\ (forall s, In s w -> over s = h) /\
+  seq_match (verify_hd h) (seq 0 (length t)) w = true.
+Proof. exact witness_from_current_view. Qed.
+Print Assumptions C19_witness_from_current_view.
+
+(* without the view test: four validators, validator 0 holds a Commit of view 0, the others committed in view 1 — the
+   assembled witness fails the check (with the test it passes) *)
+Theorem C19_witness_unfiltered_refuted :
+  table_ok 1%N 11%N ex_table /\ (3 <= cur_count 1%N ex_table)%nat /\
+  seq_match (verify_hd 11%N) (seq 0 4) (assemble false 3 1%N ex_table) = false /\
+  seq_match (verify_hd 11%N) (seq 0 4) (assemble true 3 1%N ex_table) = true.
+Proof. exact witness_unfiltered_refuted. Qed.
+Print Assumptions C19_witness_unfiltered_refuted.
 
 (* NOT proved (the property's liveness clause in full): under eventual synchrony with all validators honest, every height is
    eventually decided and every pending valid transaction is eventually included.  Kept visible as a statement only. *)
